@@ -191,6 +191,19 @@ class ObjectsDriver:
         self.cur = None
         self.deferreds = {}
         self.o = build()('/obj', self._log)
+        # the path has a history: another object lived there and served a call before this one replaced it
+        pre_if = interface.DBusInterface('org.v.Pre', interface.Method('Val', arguments='s', returns='s'), noRegister=True)
+
+        class Pre(objects.DBusObject):
+            dbusInterfaces = [pre_if]
+
+            def dbus_Val(self, s):
+                return 'pre'
+        self.h.exportObject(Pre('/obj'))
+        pc = message.MethodCallMessage('/obj', 'Val', interface='org.v.Pre', destination=':1.2', signature='s', body=['x'])
+        ppm = message.parseMessage(pc.rawMessage, [])
+        ppm.sender = ':1.3'
+        self.h.handleMethodCallMessage(ppm)
         self.h.exportObject(self.o)
         del self.conn.sent[:]
         self.calls = []          # (call record, serial, sender, arg)
